@@ -549,6 +549,24 @@ pub fn gen_long(w: &mut impl Write, thorough: bool, seed: u64) {
 /// calculators (absent, constant, per-entry table).
 pub fn gen_calls(w: &mut impl Write, thorough: bool, seed: u64) {
     let mut r = Rng::new(seed ^ 0xca11);
+    // callee and call site at the edges of the program: a one-instruction function (`exit`) that is the LAST instruction, one that is
+    // the second instruction (after `ja main`), a two-instruction function ending the program, the call as first / penultimate
+    // instruction, calls from a callee to the last instruction; k extra dead instructions after the callee move it off the edge
+    for k in 0..3usize { for calc in ["-", "40"] {
+        let dead = |v: &mut Vec<[u8; 8]>| { for _ in 0..k { v.push(ins(0xb7, 0, 0, 0, 0x666)); } if k > 0 { v.push(EXIT); } };
+        // (a) mov r0,7; call f; exit; f: exit
+        let mut s = vec![ins(0xb7, 0, 0, 0, 7), ins(0x85, 0, 1, 0, 1), EXIT, EXIT]; dead(&mut s);
+        writeln!(w, "exec tag=calls prog={} calc={} budget=200", hex(&s.iter().flatten().copied().collect::<Vec<u8>>()), calc).unwrap();
+        // (b) call f (first instruction); exit; f: mov r0,0x42; exit
+        let mut s = vec![ins(0x85, 0, 1, 0, 1), EXIT, ins(0xb7, 0, 0, 0, 0x42), EXIT]; dead(&mut s);
+        writeln!(w, "exec tag=calls prog={} calc={} budget=200", hex(&s.iter().flatten().copied().collect::<Vec<u8>>()), calc).unwrap();
+        // (c) ja main; f: exit; main: mov r0,9; call f (backward, to slot 1); exit
+        let mut s = vec![ins(0x05, 0, 0, 1, 0), EXIT, ins(0xb7, 0, 0, 0, 9), ins(0x85, 0, 1, 0, -3), EXIT]; dead(&mut s);
+        writeln!(w, "exec tag=calls prog={} calc={} budget=200", hex(&s.iter().flatten().copied().collect::<Vec<u8>>()), calc).unwrap();
+        // (d) mov r0,1; call f; exit; f: add r0,2; call g; exit; g: exit      (nested: the inner callee is the last instruction)
+        let mut s = vec![ins(0xb7, 0, 0, 0, 1), ins(0x85, 0, 1, 0, 1), EXIT, ins(0x07, 0, 0, 0, 2), ins(0x85, 0, 1, 0, 1), EXIT, EXIT]; dead(&mut s);
+        writeln!(w, "exec tag=calls prog={} calc={} budget=200", hex(&s.iter().flatten().copied().collect::<Vec<u8>>()), calc).unwrap();
+    } }
     let n = if thorough { 60_000 } else { 6_000 };
     for i in 0..n {
         let depth = (i % 10) as usize;              // number of nested functions
